@@ -676,9 +676,12 @@ impl SchemaDefinition {
     /// The order of the returned set is unspecified but deterministic
     /// for a given apollo-compiler version.
     pub fn extensions(&self) -> IndexSet<&ExtensionId> {
-        self.iter_origins()
-            .filter_map(|origin| origin.extension_id())
-            .collect()
+        merge_extensions([
+            extensions_of(self.directives.iter().map(|dir| &dir.origin)),
+            extensions_of(self.query.iter().map(|name| &name.origin)),
+            extensions_of(self.mutation.iter().map(|name| &name.origin)),
+            extensions_of(self.subscription.iter().map(|name| &name.origin)),
+        ])
     }
 }
 
@@ -874,9 +877,14 @@ impl ExtendedType {
     /// The order of the returned set is unspecified but deterministic
     /// for a given apollo-compiler version.
     pub fn extensions(&self) -> IndexSet<&ExtensionId> {
-        self.iter_origins()
-            .filter_map(|origin| origin.extension_id())
-            .collect()
+        match self {
+            Self::Scalar(ty) => ty.extensions(),
+            Self::Object(ty) => ty.extensions(),
+            Self::Interface(ty) => ty.extensions(),
+            Self::Union(ty) => ty.extensions(),
+            Self::Enum(ty) => ty.extensions(),
+            Self::InputObject(ty) => ty.extensions(),
+        }
     }
 
     serialize_method!();
@@ -896,9 +904,7 @@ impl ScalarType {
     /// The order of the returned set is unspecified but deterministic
     /// for a given apollo-compiler version.
     pub fn extensions(&self) -> IndexSet<&ExtensionId> {
-        self.iter_origins()
-            .filter_map(|origin| origin.extension_id())
-            .collect()
+        merge_extensions([extensions_of(self.iter_origins())])
     }
 
     serialize_method!();
@@ -926,9 +932,11 @@ impl ObjectType {
     /// The order of the returned set is unspecified but deterministic
     /// for a given apollo-compiler version.
     pub fn extensions(&self) -> IndexSet<&ExtensionId> {
-        self.iter_origins()
-            .filter_map(|origin| origin.extension_id())
-            .collect()
+        merge_extensions([
+            extensions_of(self.directives.iter().map(|dir| &dir.origin)),
+            extensions_of(self.implements_interfaces.iter().map(|c| &c.origin)),
+            extensions_of(self.fields.values().map(|field| &field.origin)),
+        ])
     }
 
     serialize_method!();
@@ -956,9 +964,11 @@ impl InterfaceType {
     /// The order of the returned set is unspecified but deterministic
     /// for a given apollo-compiler version.
     pub fn extensions(&self) -> IndexSet<&ExtensionId> {
-        self.iter_origins()
-            .filter_map(|origin| origin.extension_id())
-            .collect()
+        merge_extensions([
+            extensions_of(self.directives.iter().map(|dir| &dir.origin)),
+            extensions_of(self.implements_interfaces.iter().map(|c| &c.origin)),
+            extensions_of(self.fields.values().map(|field| &field.origin)),
+        ])
     }
 
     serialize_method!();
@@ -981,9 +991,10 @@ impl UnionType {
     /// The order of the returned set is unspecified but deterministic
     /// for a given apollo-compiler version.
     pub fn extensions(&self) -> IndexSet<&ExtensionId> {
-        self.iter_origins()
-            .filter_map(|origin| origin.extension_id())
-            .collect()
+        merge_extensions([
+            extensions_of(self.directives.iter().map(|dir| &dir.origin)),
+            extensions_of(self.members.iter().map(|c| &c.origin)),
+        ])
     }
 
     serialize_method!();
@@ -1006,9 +1017,10 @@ impl EnumType {
     /// The order of the returned set is unspecified but deterministic
     /// for a given apollo-compiler version.
     pub fn extensions(&self) -> IndexSet<&ExtensionId> {
-        self.iter_origins()
-            .filter_map(|origin| origin.extension_id())
-            .collect()
+        merge_extensions([
+            extensions_of(self.directives.iter().map(|dir| &dir.origin)),
+            extensions_of(self.values.values().map(|value| &value.origin)),
+        ])
     }
 
     serialize_method!();
@@ -1031,12 +1043,65 @@ impl InputObjectType {
     /// The order of the returned set is unspecified but deterministic
     /// for a given apollo-compiler version.
     pub fn extensions(&self) -> IndexSet<&ExtensionId> {
-        self.iter_origins()
-            .filter_map(|origin| origin.extension_id())
-            .collect()
+        merge_extensions([
+            extensions_of(self.directives.iter().map(|dir| &dir.origin)),
+            extensions_of(self.fields.values().map(|field| &field.origin)),
+        ])
     }
 
     serialize_method!();
+}
+
+/// The distinct extensions of one list of components, in order of first appearance
+fn extensions_of<'a>(
+    origins: impl Iterator<Item = &'a ComponentOrigin>,
+) -> IndexSet<&'a ExtensionId> {
+    origins
+        .filter_map(|origin| origin.extension_id())
+        .collect()
+}
+
+/// Merge the extensions found in each kind of component (directives, fields, …) of a definition
+/// into one order that agrees with the order of every kind.
+///
+/// Components are appended in source order, so each list is ordered like the extensions
+/// themselves and such an order exists. Serializing extensions in that order
+/// makes re-parsing yield every kind of component in its original order.
+fn merge_extensions<'a, const N: usize>(
+    lists: [IndexSet<&'a ExtensionId>; N],
+) -> IndexSet<&'a ExtensionId> {
+    let total = lists.iter().flatten().collect::<IndexSet<_>>().len();
+    let mut merged = IndexSet::default();
+    let mut cursors = [0; N];
+    while merged.len() < total {
+        for (list, cursor) in lists.iter().zip(&mut cursors) {
+            while list
+                .get_index(*cursor)
+                .is_some_and(|ext| merged.contains(ext))
+            {
+                *cursor += 1
+            }
+        }
+        let mut heads = lists
+            .iter()
+            .zip(&cursors)
+            .filter_map(|(list, &cursor)| list.get_index(cursor).copied());
+        // The next extension is first (among those remaining) in every list that has it.
+        // If lists were modified into conflicting orders, fall back to the first one remaining.
+        let next = heads
+            .clone()
+            .find(|head| {
+                lists.iter().zip(&cursors).all(|(list, &cursor)| {
+                    list.get_index_of(head).is_none_or(|index| index <= cursor)
+                })
+            })
+            .or_else(|| heads.next());
+        match next {
+            Some(ext) => merged.insert(ext),
+            None => break,
+        };
+    }
+    merged
 }
 
 impl DirectiveList {
